@@ -182,6 +182,15 @@ func (c *Encoder) encodeSubroutineDeclaration(sub *ast.SubroutineDeclaration) *F
 	w.Reset()
 
 	w.Write(c.encodeIdent(sub.Name).Encode())
+	for _, param := range sub.Parameters {
+		pw := &bytes.Buffer{}
+		pw.Write(c.encodeIdent(param.Type).Encode())
+		pw.Write(c.encodeIdent(param.Name).Encode())
+		w.Write((&Frame{
+			frameType: SUBROUTINE_PARAMETER,
+			buffer:    pw.Bytes(),
+		}).Encode())
+	}
 	if sub.ReturnType != nil {
 		w.Write(c.encodeIdent(sub.ReturnType).Encode())
 	}
